@@ -239,7 +239,7 @@ def run_driver(ctx, cases, tag, strace):
         sdir = ctx.mkdir("strace-" + tag)
         cmd += ["strace", "-ff", "--seccomp-bpf", "-o", os.path.join(sdir, "t"), "-s", "512", "-e", "trace=" + STRACE_SET]
     cmd += [exe, "run", cfile, ofile, probe, work, "8"]
-    rc, out = ctx.sh(cmd, timeout=ctx.pick(240, 1500), cwd=ctx.scratch, env={"GOMAXPROCS": "8"})
+    rc, out = ctx.sh(cmd, timeout=ctx.pick(900, 3600), cwd=ctx.scratch, env={"GOMAXPROCS": "8"})
     if rc != 0:
         raise vlib.Inconclusive("driver (%s) exited %d:\n%s" % (tag, rc, out[-4000:]))
     obs = ctx.read_ndjson(ofile)
@@ -291,26 +291,44 @@ def key_of(b, o):
 def run(ctx):
     # fewer GC threads: the machine is shared with other checks (measured 2x faster under load)
     ctx.env["JDK_JAVA_OPTIONS"] = "-XX:ParallelGCThreads=2"
+    bg = []
+    try:
+        return run_body(ctx, bg)
+    finally:
+        for b in bg:            # never leave a TLC / driver process behind, whatever happened
+            b.th.join()
+
+
+def run_body(ctx, bg):
     # ---- 1. design level (in the background while the sandboxes are built; one MC run at a time)
     def design():
         if ctx.replay:
             return "not run for a replay"
+        # vacuity: Mounts.tla ASSUMEs that every syscall kind is executed over the tables <= 1
+        # (checked at the start of every MC run).  TLC -coverage per named action is 5-10x slower:
+        if os.environ.get("VERIF_C05_COVERAGE"):
+            rc = counted(ctx, tlc_bg(ctx, "Mounts", cfg="Mounts_MC1.cfg", workers=2, timeout=2400, coverage=True).join())
+            ctx.tlc_ok("Mounts MC (tables <= 1, coverage)", rc)
+            zero = rc.coverage_zero()
+            acts = len(set(re.findall(r"^<(\w+) line [^>]*>: \d+:\d+$", rc.out, re.M)))
+            if zero or acts < 20:
+                ctx.note("MC actions never taken: %s (%d actions seen)" % (",".join(sorted(set(zero))), acts))
+            ctx.cov["mc_actions_taken"] = acts - len(set(zero))
         if ctx.quick():
-            r = counted(ctx, tlc_bg(ctx, "Mounts", cfg=mc_cfg(2, "ContOptsMain", "EnvsOne"), workers=4, timeout=400).join())
+            r = counted(ctx, tlc_bg(ctx, "Mounts", cfg=mc_cfg(2, "ContOptsMain", "EnvsOne"), workers=4, timeout=900).join())
             ctx.tlc_ok("Mounts MC (tables <= 2)", r)
             return "tables<=2 x {fork, cont x 4 option sets}: %d states" % r.distinct
-        r = counted(ctx, tlc_bg(ctx, "Mounts", workers=4, timeout=900).join())
+        r = counted(ctx, tlc_bg(ctx, "Mounts", workers=4, timeout=2400).join())
         ctx.tlc_ok("Mounts MC (tables <= 3)", r)
-        r2 = counted(ctx, tlc_bg(ctx, "Mounts", cfg="Mounts_MC2.cfg", workers=4, timeout=600, coverage=True).join())
+        r2 = counted(ctx, tlc_bg(ctx, "Mounts", cfg="Mounts_MC2.cfg", workers=4, timeout=2400).join())
         ctx.tlc_ok("Mounts MC (tables <= 2, all option sets, two environments)", r2)
-        zero = r2.coverage_zero()
-        if zero:
-            ctx.note("MC actions never taken: %s" % ",".join(sorted(set(zero))))
         return "tables<=3 x {fork, cont x 2 option sets}: %d states; tables<=2 x {fork, cont x 8 option sets} x 2 envs: %d states" % (
             r.distinct, r2.distinct)
     mc = Bg(design)
+    bg.append(mc)
     time.sleep(0.3)
     bins = Bg(lambda: prepare_bins(ctx))        # go build / gcc while TLC enumerates
+    bg.append(bins)
     # ---- 2. TLC enumerates the configurations
     if ctx.replay:
         sel = [dict(ctx.replay["case"]["case"], id=1)] if isinstance(ctx.replay.get("case"), dict) and "case" in ctx.replay["case"] else []
@@ -318,7 +336,7 @@ def run(ctx):
             raise vlib.Inconclusive("replay file carries no case")
         total = 1
     else:
-        g = tlc_bg(ctx, "Mounts_Gen", cfg=gen_cfg(ctx), timeout=600, extra=["-seed", str(1000 + ctx.seed)]).join()
+        g = tlc_bg(ctx, "Mounts_Gen", cfg=gen_cfg(ctx), timeout=900, extra=["-seed", str(1000 + ctx.seed)]).join()
         ctx.tlc_ok("Mounts_Gen", g)
         m = re.search(r'"generated", (\d+), "of", (\d+)', g.out)
         total = int(m.group(2)) if m else 0
@@ -331,19 +349,22 @@ def run(ctx):
     # ---- 3. the real code
     bins.join()
     fb = Bg(lambda: run_driver(ctx, fork, "fork", strace=True))
+    bg.append(fb)
     cobs, _ = run_driver(ctx, cont, "cont", strace=False)
     ctx.log("container: %d sandboxes" % len(cobs))
     fobs, texts = fb.join()
     ctx.log("namespace runner: %d sandboxes, %d strace records" % (len(fobs), len(texts)))
     obs = fobs + cobs
     # ---- 4a. TLC judges every observation
-    jb = tlc_bg(ctx, "Mounts_Judge", files={"obs.ndjson": obs}, timeout=ctx.pick(400, 1500), heap="10g")
+    jb = tlc_bg(ctx, "Mounts_Judge", files={"obs.ndjson": obs}, timeout=ctx.pick(900, 2400), heap="10g")
+    bg.append(jb)
     tb = None
     traces = build_traces(ctx, fobs, texts)
     if fork and len(traces) != len(fork):
         raise vlib.Inconclusive("strace records for %d of %d namespace-runner launches" % (len(traces), len(fork)))
     if traces:
-        tb = tlc_bg(ctx, "Mounts_Trace", files={"traces.ndjson": traces}, timeout=ctx.pick(400, 1200), heap="10g")
+        tb = tlc_bg(ctx, "Mounts_Trace", files={"traces.ndjson": traces}, timeout=ctx.pick(900, 2400), heap="10g")
+        bg.append(tb)
     j = counted(ctx, jb.join())
     ctx.tlc_ok("Mounts_Judge", j)
     bad = ctx.read_ndjson(os.path.join(j.dir, "bad.ndjson"))
